@@ -84,6 +84,10 @@ func SetCondition(status map[string]interface{}, condition *StatusCondition) err
 			if cobj, ok := item.(map[string]interface{}); ok {
 				if ctype, ok := cobj["type"].(string); ok && ctype == condition.Type {
 					conditions[i] = condition.Object()
+					// NestedSlice returned a deep copy: store the updated list back.
+					if err := unstructured.SetNestedField(status, conditions, "conditions"); err != nil {
+						return err
+					}
 					return nil
 				}
 			}
